@@ -143,7 +143,7 @@ func evalSweep(s Sweep) *pbt.Fail {
 
 var chkSweep = pbt.Check[Sweep]{Name: "filler-independence", Eval: evalSweep, Gen: func(rt *rapid.T) Sweep {
 	f := gen.GenExif(rt, gen.Options{Unbuffered: true, MaxForeign: 4, HeavyWriter: rapid.IntRange(0, 4).Draw(rt, "heavy") == 0})
-	s := Sweep{Rec: f.Rec, Ctx: exifcheck.CtxOf(f), Payload: f.Enc.II, Container: rapid.SampledFrom([]string{"jpeg", "png", "cr3", "heif"}).Draw(rt, "container"), At: rapid.IntRange(0, 2).Draw(rt, "at")}
+	s := Sweep{Rec: f.Rec, Ctx: exifcheck.CtxOf(f), Payload: f.Enc.II, Container: rapid.SampledFrom([]string{"jpeg", "png", "cr3", "heif"}).Draw(rt, "container"), At: rapid.IntRange(0, 3).Draw(rt, "at")}
 	if rapid.Bool().Draw(rt, "mm") {
 		s.Payload = f.Enc.MM
 	}
@@ -182,7 +182,7 @@ func TestProp(t *testing.T) {
 		for _, ct := range []struct {
 			c  string
 			at int
-		}{{"jpeg", 0}, {"png", 0}, {"cr3", 0}, {"cr3", 1}, {"heif", 0}, {"heif", 1}, {"heif", 2}} {
+		}{{"jpeg", 0}, {"png", 0}, {"cr3", 0}, {"cr3", 1}, {"heif", 0}, {"heif", 1}, {"heif", 2}, {"heif", 3}} {
 			if ct.c == "jpeg" && len(f.Enc.II) > 65000 {
 				continue
 			}
